@@ -30,6 +30,7 @@ import (
 type spec struct {
 	Name       string
 	Kind       string // "store" | "db"
+	RacingDDL  [3]int // db: DDL statements committing during the catalog copy of each of the three truncations
 	IOConc     int
 	FileSize   int
 	VLogCache  int
